@@ -1,5 +1,5 @@
 from ..framework import Spec
-from ..ties_sys import sys_tie, paste_oracle, scenario_tie, fault_sweep_tie, cli_tie, layout_tie
+from ..ties_sys import sys_tie, paste_oracle, scenario_tie, fault_sweep_tie, cli_tie, layout_tie, cli_scenario_tie
 from ..scenarios import gen_include_scenario, gen_cond_scenario
 
 SPEC = Spec(pid='C17', coq_needs=['Base', 'Program', 'ProgramProofs', 'ReaderProofs', 'Properties/C17'],
@@ -11,5 +11,7 @@ SPEC = Spec(pid='C17', coq_needs=['Base', 'Program', 'ProgramProofs', 'ReaderPro
                   # the real command line, called the way a build script does (from the source directory, bare file name, -I .)
                   cli_tie('C17', n_quick=60, n_thorough=800, relative=True),
                   # include lines (and everything else) under random layout: any whitespace after the keyword, indentation
-                  layout_tie('C17', n_quick=100, n_thorough=1500, name='layout_C17')],
+                  layout_tie('C17', n_quick=100, n_thorough=1500, name='layout_C17'),
+                  # include trees (repeats, cycles back to the main file) with the main file named by a relative path
+                  cli_scenario_tie('include_trees_cli', gen_include_scenario, 80, 1000)],
             oracles=[paste_oracle()])
